@@ -169,8 +169,8 @@ impl Property for C16 {
     }
     fn cases(&self, tier: Tier) -> u32 {
         match tier {
-            Tier::Quick => 8_000,
-            Tier::Thorough => 120_000,
+            Tier::Quick => 150_000,
+            Tier::Thorough => 1_500_000,
         }
     }
     fn rule(&self) -> String {
